@@ -13,6 +13,7 @@ func TestWorker(t *testing.T) {
 	if os.Getenv("VERIF_KEEP_STDOUT") == "" && env.Mode == "batch" {
 		os.Stdout = devnull
 	}
+	core.Watchdog = true
 	os.Exit(core.WorkerMain(env, &Engine{T: t}))
 }
 
@@ -27,5 +28,6 @@ func TestRaceSweep(t *testing.T) {
 	if os.Getenv("VERIF_KEEP_STDOUT") == "" && env.Mode == "batch" {
 		os.Stdout = devnull
 	}
+	core.Watchdog = true
 	os.Exit(core.WorkerMain(env, &Engine{T: t}))
 }
